@@ -156,6 +156,11 @@ def c19_unique_cases(tier):
     shape = (2, 2, 1, 2)
     for flat in itertools.product(vals, repeat=8):
         yield ("unique", shape, flat, True)
+    # 3D frames (t, z, y, x) and three hypotheses with a single frame each
+    for flat in itertools.product((0, 1, 2), repeat=8):
+        yield ("unique", (2, 2, 1, 2), flat, False)
+    for flat in itertools.product((0, 1, 2), repeat=6):
+        yield ("unique", (3, 1, 1, 2), flat, True)
     if not q:
         shape = (3, 1, 3)
         for flat in itertools.product((0, 1, 3), repeat=9):
@@ -452,6 +457,15 @@ def _c13_class(assign, seg):
 
 def c13_cases(tier):
     q = tier == "quick"
+    # a small 3D+t variant (t, z, y, x), direct relabelling only
+    shape3 = (2, 2, 1, 2)
+    for flat in itertools.product((0, 1, 2), repeat=8):
+        seg = np.array(flat).reshape(shape3)
+        present = [(t, int(lab)) for t in range(2) for lab in np.unique(seg[t]) if lab]
+        if not present or (q and len(present) > 3):
+            continue
+        for perm in itertools.permutations((0, 1, 2, 3), len(present)):
+            yield ("direct", shape3, flat, tuple(zip(present, perm)))
     shape = (2, 1, 3)
     labels = (0, 1, 2, 3) if not q else (0, 1, 2)
     ids = (0, 1, 2, 3, 4) if not q else (0, 1, 2, 3)
